@@ -51,15 +51,18 @@ Definition check_ev (c : config) (pool : list key) (s : state) (e : iev) (obs : 
   let o := map (kof pool) obs in
   match e with
   | ISweepTicks n =>
-      (* every peer due before the ticks must be blocklisted, none that is not
-         due after them may be; the implementation's choice is then replayed
-         peer by peer at the final sequence value *)
-      let must := sort_keys (snd (sweep s)) in
-      let s1 := Nat.iter n (fun s => fst (step c s (Tick true))) s in
-      let may := sort_keys (snd (sweep s1)) in
+      (* a peer due at every sequence value the sweep can have read (s, s+1,
+         .., s+n) must be blocklisted, a blocklisted peer must be due at one
+         of them (without wrap-around of the uint64 sequence: "due at s" and
+         "due at s+n"); the implementation's choice is then removed from the map *)
+      let tick := fun s => fst (step c s (Tick true)) in
+      let dues := map (fun j => snd (sweep (Nat.iter j tick s))) (List.seq 0 (S n)) in
+      let must := sort_keys (filter (fun k => forallb (mem k) dues) (snd (sweep s))) in
+      let may := concat dues in
+      let s1 := Nat.iter n tick s in
       if subset must o && subset o may && keys_eqb (sort_keys o) o then
-        inl (fold_left (fun s k => fst (sweep_peer s k)) o s1)
-      else inr (must ++ [[]] ++ may, o)
+        inl (fold_left (fun s k => mkState (seq s) (remove_key (flagged s) k)) o s1)
+      else inr (must ++ [[]] ++ sort_keys may, o)
   | _ =>
       let ev := match e with
                 | ITick a => Tick a | IFlag i a => Flag (kof pool i) a | IUnflag i => Unflag (kof pool i)
